@@ -66,7 +66,7 @@ func main() {
 	// restrict packages to those needed for the property
 	needPkg := map[string]bool{}
 	for _, c := range cs.Funcs {
-		if c.PkgPath == "" {
+		if c.PkgPath == "" || c.Trusted || c.IsIface {
 			continue
 		}
 		if *prop == "all" || hasProp(c.Props, *prop) {
@@ -80,7 +80,11 @@ func main() {
 	}
 	var pats []string
 	for p := range needPkg {
-		pats = append(pats, "./"+strings.TrimPrefix(p, repoModule+"/"))
+		if strings.HasPrefix(p, repoModule+"/") {
+			pats = append(pats, "./"+strings.TrimPrefix(p, repoModule+"/"))
+		} else {
+			pats = append(pats, p)
+		}
 	}
 	sort.Strings(pats)
 	extra := readExtraLoads(*specs)
@@ -106,7 +110,7 @@ func main() {
 	sort.Strings(keys)
 	for _, k := range keys {
 		c := cs.Funcs[k]
-		if c.IsIface || c.Trusted || c.PkgPath == "" {
+		if c.IsIface || c.Trusted {
 			continue
 		}
 		if *prop != "all" && !hasProp(c.Props, *prop) {
